@@ -380,6 +380,12 @@ func (r *rctx) stmt(s *S) {
 			r.line("tr.U(%d / tr.Zero())", s.ID)
 		case "error":
 			r.line("panic(tr.V(%d, fmt.Errorf(\"err%d\")))", s.ID, s.ID)
+		case "nil":
+			r.line("tr.E(%d)", s.ID*10+1)
+			r.line("panic(nil)")
+		case "nilerr":
+			r.line("var pe%d error", s.ID)
+			r.line("panic(pe%d)", s.ID)
 		default:
 			r.line("panic(tr.V(%d, \"boom%d\"))", s.ID, s.ID)
 		}
@@ -862,7 +868,7 @@ func (g *rgen) list(depth int, c wctx, max int) []*S {
 func (g *rgen) stmt(depth int, c wctx) *S {
 	g.left--
 	if g.p.PanicPct > 0 && g.rng.Intn(100) < g.p.PanicPct {
-		s := &S{K: "panic", Form: g.pick([]string{"explicit", "explicit", "index", "nilmap", "div", "error"}), N: 1}
+		s := &S{K: "panic", Form: g.pick([]string{"explicit", "explicit", "index", "nilmap", "div", "error", "nil", "nilerr"}), N: 1}
 		if g.rng.Intn(5) == 0 {
 			s.N = 0
 		}
